@@ -122,6 +122,12 @@ Section Raw.
     | x :: r => match rec x t with
                 | (Ret v, rx) => nest_raw t r (k_ok k rx)
                 | (Exc e, rx) => (Some e, k_fail k rx) end end.
+  Fixpoint and_raw (t : nat) (l : list tspec) (k : kids) (last : nat) : out * kids :=
+    match l with
+    | [] => (Ret last, k)
+    | x :: r => match rec x t with
+                | (Ret v, rx) => and_raw t r (k_ok k rx) v
+                | (Exc e, rx) => (Exc e, k_fail k rx) end end.
   Fixpoint alt_raw (t : nat) (l : list tspec) (k : kids) : option nat * kids :=
     match l with
     | [] => (None, k)
@@ -270,7 +276,7 @@ Qed.
 Fixpoint sids (s : tspec) : list nat :=
   match s with
   | Leaf n _ | SkipLeaf n => [n]
-  | Nest n l | Chain n l | Alt n l | OrS n l | AltD n l => n :: flat_map sids l
+  | Nest n l | Chain n l | Alt n l | OrS n l | AltD n l | AndS n l => n :: flat_map sids l
   | Switch n cs => n :: flat_map (fun kv => let '(k, v) := kv in sids k ++ sids v) cs
   | Guard n _ k | NotS n k => n :: sids k end.
 Definition wf (s : tspec) : Prop := NoDup (sids s) /\ Forall (fun n => n < 1000) (sids s).
